@@ -7,6 +7,8 @@ pub fn worker_main(args: &[String]) -> i32 {
     let name = args.first().map(|x| x.as_str()).unwrap_or("");
     match name {
         "c02" => workers::worker_entry(args, crate::props::c02::worker),
+        "c05-abs" => workers::worker_entry(args, crate::props::c05::worker_abs),
+        "c05-spell" => workers::worker_entry(args, crate::props::c05::worker_spell),
         "c07" => workers::worker_entry(args, crate::props::c07::worker),
         "c08_stdfs" => workers::worker_entry(args, crate::props::c08::worker_stdfs),
         "c10" => workers::worker_entry(args, crate::props::c10::worker),
